@@ -76,7 +76,11 @@ async fn run_history(h: Value) -> Outcome {
                 out.pubs += 1;
                 snap_tx.send(snapshot(&step["snap"])).expect("watcher alive");
                 if tokio::time::timeout(Duration::from_secs(5), observer.changed()).await.is_err() {
-                    out.tool_error = Some("watcher did not publish".into());
+                    // the clock is paused: the watcher is idle and has published nothing for a snapshot that differs
+                    // from the previous one
+                    out.violation = Some(json!({"property": "C16", "step": i + 1, "history": h["hist"],
+                        "why": [format!("the membership changed (left {:?}, joined {:?}) and no change was published",
+                                        pairs(&step["left"]), pairs(&step["joined"]))]}));
                     return out;
                 }
                 let delta = observer.borrow_and_update().clone();
